@@ -26,6 +26,9 @@ META = {
 import itertools, os, random, warnings
 import numpy as np
 
+VERIF_ROOT = os.path.dirname(os.path.dirname(os.path.dirname(os.path.dirname(os.path.abspath(__file__)))))
+HARNESS = os.path.join(VERIF_ROOT, "harness")
+
 TRACE_CFG = """CONSTANTS
   Order <- TraceOrder
   Kinds <- AnyKinds
@@ -87,17 +90,27 @@ def realise(order, kinds, steps, seed):
     return joint, strat, nst, classes, makers
 
 
+class Refused(Exception):
+    """the library refused to construct a HybridGibbs sampler for a configuration (validation): not a C09 matter"""
+
+
 def run_config(rec, cfgcase, seed):
     """Run HybridGibbs for one configuration under the recorder: warm-up sweep(s) then sample sweeps split over `calls` calls."""
     import cuqi
     from cuqiverif import zoo
+    from cuqiverif.core import MachineryError
     r = realise(cfgcase["order"], cfgcase["kinds"], cfgcase["steps"], seed)
     if r is None:
         return None
     joint, strat, nst, classes, makers = r
     with zoo.quiet():
         np.random.seed(seed)
-        g = cuqi.experimental.mcmc.HybridGibbs(joint, strat, nst)
+        try:
+            g = cuqi.experimental.mcmc.HybridGibbs(joint, strat, nst)
+        except MachineryError:
+            raise
+        except Exception as ex:
+            raise Refused(str(ex)[:80])
         g.warmup(2)
         if cfgcase["calls"] >= 2:
             g.sample(1)
@@ -190,6 +203,8 @@ def validate_traces(ctx, traces, label):
     groups = {}
     for t in traces:
         if not t["events"] or t["events"][0].get("e") != "init":
+            # an object whose construction was not seen by the recorder (created before it was installed): not validated
+            ctx.observations["traces_without_init_skipped/" + label] = ctx.observations.get("traces_without_init_skipped/" + label, 0) + 1
             continue
         groups.setdefault(tuple(t["events"][0]["order"]), []).append(t)
     for order, ts in groups.items():
@@ -211,6 +226,7 @@ def validate_traces(ctx, traces, label):
             ctx.case(("trace", label, t["meta"].get("iface"), tuple(sorted(classes.items())), tuple(sorted(t["events"][0]["steps"].items())), len(t["events"])))
             if v["ok"]:
                 ctx.traces += 1
+                ACCEPTED.append(t)
                 continue
             nxt = v["next"] or {}
             iface = t["meta"].get("iface", "?")
@@ -226,6 +242,9 @@ def validate_traces(ctx, traces, label):
     return groups
 
 
+ACCEPTED = []       # traces accepted by the deciding configuration (filled by validate_traces; used by the binding self-test)
+
+
 def run(ctx):
     import cuqi  # noqa
     from cuqiverif import zoo, trace, record
@@ -233,7 +252,8 @@ def run(ctx):
     from cuqiverif.core import MachineryError
     warnings.filterwarnings("ignore")
     # 1. the specification itself
-    res = ctx.tlc("Gibbs", cfg="Gibbs.%s.cfg" % ctx.tier, workers=16, timeout=1500)
+    res = ctx.tlc("Gibbs", cfg="Gibbs.%s.cfg" % ctx.tier, workers=16, timeout=1500,
+                  require_actions=["SetTarget", "SaveReinit", "Restore", "BlockStep", "Extract", "Store", "NewCall"])
     ctx.model_must_hold(res, "Gibbs")
     for cfg, inv in (("dev_cache", "CacheFresh"), ("dev_stale", "Fresh"), ("dev_store", "StoredIsPostSweep"), ("dev_restart", "ResumeFromLast")):
         r = ctx.tlc("Gibbs", cfg="Gibbs.%s.cfg" % cfg, workers=4, expect_violation=True)
@@ -267,6 +287,7 @@ def run(ctx):
         if key not in seen:
             seen.add(key)
             configs.append(c)
+    configs.sort(key=lambda c: (c["order"], sorted(c["kinds"].items()), sorted(c["steps"].items()), c["calls"]))   # TLC emits in scheduling order
     rnd = random.Random(ctx.seed)
     if ctx.tier == "quick" and len(configs) > 40:
         configs = rnd.sample(configs, 40)
@@ -275,13 +296,23 @@ def run(ctx):
     rec = record.Recorder(max_events_per_trace=6000, max_traces=2000)
     install_gibbs(rec)
     runs = []
+    nfailed = 0
     try:
         for i, c in enumerate(configs):
             try:
                 out = run_config(rec, c, 5000 + ctx.seed + i)
-            except Exception as ex:       # a configuration the library cannot run is not a C09 matter
-                ctx.observations.setdefault("unrealisable", []).append("%s: %s" % (c["kinds"], str(ex)[:80]))
+            except MachineryError:
+                raise                     # e.g. a recorder target disappeared: exit 2, never swallowed
+            except Refused as ex:         # a configuration the library refuses to construct is not a C09 matter
+                ctx.observations.setdefault("unrealisable", []).append("%s: %s" % (c["kinds"], ex))
                 out = None
+            except Exception as ex:
+                # constructed, then failed in the middle of its sweeps: no chain is delivered.  Logged (with the count used by
+                # the vacuity guard below); the recorder has closed the trace, so what was recorded up to there is validated.
+                ctx.observations.setdefault("failed_during_sweeps", []).append("%s %s: %s: %s" % (
+                    c["kinds"], c["steps"], type(ex).__name__, str(ex)[:80]))
+                out = None
+                nfailed += 1
             if out is not None:
                 runs.append((c, out))
         # both interfaces on the 3-block hierarchical model with exact block samplers; continuation of a legacy run
@@ -305,7 +336,11 @@ def run(ctx):
     finally:
         rec.uninstall()
     traces = rec.trace_list()
-    ctx.observe("configurations", {"emitted": len(seen), "realised": len(runs)})
+    ctx.observe("configurations", {"emitted": len(seen), "selected": len(configs), "realised": len(runs), "failed_during_sweeps": nfailed,
+                                   "target_probe_without_verdict": getattr(rec, "tgt_unknown", 0)})
+    if len(runs) < 5 or nfailed > len(runs):
+        raise MachineryError("vacuous: only %d configurations could be run (%d failed during their sweeps)" % (len(runs), nfailed))
+    del ACCEPTED[:]
     validate_traces(ctx, traces, "configs")
     for c, (g, js, classes) in runs:
         _check_stored_values(ctx, rec, g, js, list(g.par_names), "HybridGibbs")
@@ -322,13 +357,18 @@ def run(ctx):
     # 3. thorough: the repository's own Gibbs tests under the recorder
     if ctx.tier == "thorough":
         rt = record_repo_tests()
-        ctx.observe("repo_tests_recorded", len(rt))
+        ctx.observe("repo_tests_recorded", {"traces": len(rt), "pytest": dict(LAST_PYTEST)})
         validate_traces(ctx, rt, "repo-tests")
     # 4. binding self-test: corrupt a conditioning value / drop a block step of an accepted trace -> rejected
-    good = next((t for t in traces if t["events"] and t["events"][0].get("e") == "init" and
-                 any(e["e"] == "set_target" for e in t["events"])), None)
-    if good is None:
+    if not any(t["events"] and t["events"][0].get("e") == "init" for t in traces):
         raise MachineryError("no Gibbs trace recorded")
+    good = next((t for t in ACCEPTED if sum(1 for e in t["events"] if e["e"] == "set_target") >= 2 and
+                 any(e["e"] == "block_step" for e in t["events"]) and any(e["e"] == "store" for e in t["events"])), None)
+    if good is None:
+        if ctx.violations:
+            good = None        # every trace of a broken tree is rejected: the violations stand, nothing to self-test
+        else:
+            raise MachineryError("no accepted Gibbs trace with conditioning, block steps and stored sweeps: trace facet is vacuous")
 
     def stale_other(ev):
         i = [j for j, e in enumerate(ev) if e["e"] == "set_target"][-1]
@@ -343,18 +383,29 @@ def run(ctx):
         i = [j for j, e in enumerate(ev) if e["e"] == "store"][-1]
         k = sorted(ev[i]["vals"])[0]
         ev[i]["vals"][k] += 1
-    v0 = trace.validate(ctx, [good], "TraceGibbs", TRACE_CFG % "FALSE", extra_modules=("Gibbs.tla",), label="c09self")
-    if v0[0]["ok"]:
-        for nm, mut in (("stale_other", stale_other), ("drop_step", drop_step), ("wrong_store", wrong_store)):
+    def wrong_target(ev):
+        i = [j for j, e in enumerate(ev) if e["e"] == "block_step"][-1]
+        ev[i]["tgt_ok"] = False
+
+    def stale_cache(ev):
+        i = [j for j, e in enumerate(ev) if e["e"] == "block_step"][-1]
+        ev[i]["cache_ok"] = False
+    if good is not None:
+        for nm, mut in (("stale_other", stale_other), ("drop_step", drop_step), ("wrong_store", wrong_store),
+                        ("wrong_target", wrong_target), ("stale_cache", stale_cache)):
             if not trace.corrupt_selftest(ctx, good, "TraceGibbs", TRACE_CFG % "FALSE", mut, extra_modules=("Gibbs.tla",)):
                 raise MachineryError("corrupted Gibbs trace (%s) was accepted" % nm)
-        ctx.observe("binding_selftest", "stale conditioning value, missing block step and wrong stored tuple are rejected")
+        ctx.observe("binding_selftest", "stale conditioning value, missing block step, wrong stored tuple, sampler holding another "
+                    "target and stale cache are rejected")
+        ctx.sample({"trace_init": good["events"][0], "events": good["events"][1:9]})
     ctx.sample({"config": configs[0] if configs else None})
-    ctx.sample({"trace_init": good["events"][0], "events": good["events"][1:9]})
     ctx.rule = ("configurations = distinct (order, kind per block, steps per block, calls) emitted by TLC from Gibbs.tla, each realised on a "
                 "hierarchical Gaussian/Gamma model and validated as a trace; distinct = (interface, sampler classes, steps, trace length)")
     ctx.exhaustive = False
     ctx.assumptions += ["value ids are hashes of array bytes modulo 999983 (collisions can only make the check miss, never alarm)"]
+
+
+LAST_PYTEST = {}       # outcome of the last recorded pytest run (logged as an observation)
 
 
 def record_repo_tests(tests=("tests/zexperimental/test_mcmc.py", "tests/test_sampler.py", "tests/test_bayesian_inversion.py"), timeout=2400):
@@ -364,17 +415,27 @@ def record_repo_tests(tests=("tests/zexperimental/test_mcmc.py", "tests/test_sam
     repo = os.environ.get("CUQIVERIF_REPO", "/repo")
     os.makedirs(tlc.WORK, exist_ok=True)
     out = os.path.join(tlc.WORK, "c09_repo_traces_%d.json" % os.getpid())
+    import shutil
+    cwd = os.path.join(tlc.WORK, "c09_pytest_cwd_%d" % os.getpid())      # tests write relative to the current directory
+    os.makedirs(cwd, exist_ok=True)
     env = dict(os.environ, CUQIPY_VERIF="1", CUQIVERIF_TRACE_OUT=out, CUQIVERIF_RECORD="c09", CUQIVERIF_MAX_EVENTS="3000",
-               PYTHONPATH=os.path.join("/verif", "harness") + os.pathsep + repo, TQDM_DISABLE="1")
-    p = subprocess.run([sys.executable, "-m", "pytest", "-q", "-p", "no:cacheprovider", "-p", "cuqiverif.pytest_recorder",
-                        "--timeout=900", "-k", "ibbs"] + list(tests), cwd=repo, env=env, stdout=subprocess.PIPE,
-                       stderr=subprocess.STDOUT, text=True, timeout=timeout)
-    if not os.path.exists(out):
-        raise MachineryError("recorder plugin produced no trace file; pytest tail:\n" + "\n".join(p.stdout.splitlines()[-15:]))
+               PYTHONPATH=HARNESS + os.pathsep + repo, TQDM_DISABLE="1", PYTHONDONTWRITEBYTECODE="1")
     try:
+        try:
+            p = subprocess.run([sys.executable, "-m", "pytest", "-q", "-p", "no:cacheprovider", "-p", "cuqiverif.pytest_recorder",
+                                "--timeout=900", "--rootdir", repo, "-k", "ibbs"] + [os.path.join(repo, t) for t in tests], cwd=cwd,
+                               env=env, stdout=subprocess.PIPE, stderr=subprocess.STDOUT, text=True, timeout=timeout)
+        except subprocess.TimeoutExpired:
+            raise MachineryError("recording the repository's Gibbs tests timed out after %ss" % timeout)
+        if not os.path.exists(out):
+            raise MachineryError("recorder plugin produced no trace file; pytest tail:\n" + "\n".join(p.stdout.splitlines()[-15:]))
+        LAST_PYTEST.update(returncode=p.returncode,
+                           failed=[l.split(" ")[1] for l in p.stdout.splitlines() if l.startswith("FAILED ") and " " in l][:20])
         return json.load(open(out))
     finally:
-        os.remove(out)
+        shutil.rmtree(cwd, ignore_errors=True)
+        if os.path.exists(out):
+            os.remove(out)
 
 
 def install_recorder(rec):
@@ -384,5 +445,7 @@ def install_recorder(rec):
 
 
 def replay(ctx, case):
-    # traces are re-recorded from scratch: the stored case identifies the configuration
-    return run(ctx)
+    # traces are re-recorded from scratch (the stored case identifies the configuration): one re-run per replay file
+    if not getattr(ctx, "_c09_rerun", False):
+        ctx._c09_rerun = True
+        run(ctx)
